@@ -297,6 +297,12 @@ func TestVerifC38Cluster(t *testing.T) {
 		cfgs = append(cfgs, cfg{num, 1000000})
 	}
 	dens := []uint32{100, 10000, 1000000}
+	// numerator far above the denominator (32-bit products of numerator * 10^6/denominator wrap around): everything is dropped
+	for _, den := range dens {
+		for _, num := range []uint32{429497, 429500, 4294967, 4294968, 42949673, 429496730, 2147483648, 4294967295} {
+			cfgs = append(cfgs, cfg{num, den})
+		}
+	}
 	for i := 0; i < n; i++ {
 		den := dens[r.Intn(3)]
 		num := uint32(r.Intn(int(den) + 1))
